@@ -319,3 +319,56 @@ def r6(cx):
                      "`%s` falls back to fs::copy when fs::hard_link fails, without first removing the destination: when the destination already is a hard link of the source "
                      "(a second checkpoint into the same directory), the copy truncates the shared inode -- the LIVE table file becomes empty" % owner)
     cx.floor("link-or-copy sites", n, 2)
+
+
+_COUNTER_FIELDS = {}
+
+
+def _field_filled_from_counter(f, owner, field):
+    """some struct literal of `owner` initialises `field` from an atomic `fetch_add` (a process-wide counter)"""
+    k = (owner, field)
+    if k in _COUNTER_FIELDS:
+        return _COUNTER_FIELDS[k]
+    res = False
+    base = owner.split("<")[0]
+    for b in f.scan_bodies():
+        for i, j, lhs, rv, line in b.assigns():
+            if rv[0] != "agg" or not rv[3] or (rv[3].get("adt") or "").split("<")[0] != base:
+                continue
+            fields = rv[3].get("fields") or []
+            if field in fields and fields.index(field) < len(rv[2]):
+                o = origin_of_operand(b, rv[2][fields.index(field)], through_calls="all")
+                if any(x.primary.split("::")[-1] == "fetch_add" for x in o.calls):
+                    res = True
+    _COUNTER_FIELDS[k] = res
+    return res
+
+
+@rule("C14", "C14.R7", "block-cache keys are unique in the cache's sharing domain (a checkpoint opened next to the live store)")
+def r7(cx):
+    """The block cache hangs off `Options` as an `Arc`: cloning the options -- the natural way to open a checkpoint
+    directory as a database next to the live store -- makes both stores share ONE cache.  Its keys are (kind, id, offset)
+    with the table id / value-log file id, counters that every store issues from 1: the checkpoint store's table N and
+    the live store's table N are different files under the same key, and a read in one store is answered with the
+    other's block (data that was never in the checkpoint).  Decided: the `id` component of every key handed to
+    `BlockCache::{get,insert}_*` does not derive from a store-local counter alone -- it derives from (or is combined
+    with) a process-unique source."""
+    f = cx.f
+    n = 0
+    for b in f.scan_bodies():
+        if "::tests::" in b.id or b.file.endswith("cache.rs") or "/test/" in b.file:
+            continue
+        for c in b.calls:
+            nm = c.primary.split("::")[-1]
+            if c.bb not in b.live or "BlockCache" not in c.primary or not (nm.startswith("get_") or nm.startswith("insert_")) or len(c.args) < 3:
+                continue
+            n += 1
+            o = origin_of_operand(b, c.args[1], through_calls="all")
+            flds = o.field_names()
+            # process-unique: taken from a global counter here, or read from a field that some constructor fills from one
+            unique = any(x.primary.split("::")[-1] == "fetch_add" for x in o.calls) or any(_field_filled_from_counter(f, own, fl) for own, fl in o.fields)
+            cx.check(unique, "`%s`: the cache key of `%s` is unique across stores that share the cache" % (b.id, nm), "cache-key-store-local|%s|%s" % (b.name, nm), c.where(),
+                     "`%s` keys the shared block cache with a store-local id (%s): `Options` is Clone and carries the cache as an Arc, so a second store opened from cloned "
+                     "options (a checkpoint directory opened next to the live store) issues the same ids for different files and is answered with the other store's blocks" % (
+                         b.id, ", ".join(sorted(flds - {"", "0"})) or "computed"))
+    cx.floor("BlockCache get/insert call sites", n, 8)
